@@ -369,8 +369,9 @@ def include_doc(r, style=None, payload=""):
         opts = []
         if r.random() < 0.6:
             opts.append(("encoding", r.choice(INCLUDE_ENCODINGS) + (payload if r.random() < 0.3 else "")))
-        if r.random() < 0.2:
-            opts.append((r.choice(["class", "x", "encoding"]), payload or "v"))
+        if r.random() < 0.4:
+            # option names of every kind: unknown ones, repeated ones, names that other parts of the library use for themselves
+            opts.append((r.choice(["class", "x", "encoding", "text", "renderer", "filepath", "raw", "type", "self", "children", "attrs", "name", "title"]), payload or "v"))
         if style == "fenced":
             block = "```{include} %s\n%s```\n" % (tgt, "".join(":%s: %s\n" % o for o in opts))
         else:
